@@ -19,12 +19,14 @@
   `skipTraceWroteResponse`, `writeErrorResponse` and `tunnel`, so where the trace fires is
   derived, not postulated.  The model mirrors the code *including* its defects:
 
-    F12   the error response for a CONNECT rejection that happened inside the transport keeps
-          `res.Request` = the transport's own CONNECT request (maybeConnectErrorResponse), so the
-          completion is reported under method CONNECT, not under the client's method.
     F40  `skipTraceWroteResponse` skips every error-free 101, also the 101 with which an
-          upstream proxy *rejects* a CONNECT (handleConnectRequest → writeResponse(res), no tunnel
-          follows) — that exchange is never reported complete.
+          upstream proxy *rejects* a CONNECT — the client's (handleConnectRequest →
+          writeResponse(res)) or the transport's own (roundTrip error → writeErrorResponse →
+          writeResponse(res)); no tunnel follows — that exchange is never reported complete.
+
+  Repaired (F12): the error response for a CONNECT rejection that happened inside the transport
+  (`maybeConnectErrorResponse`) used to keep `res.Request` = the transport's own CONNECT request, so
+  the completion was reported under method CONNECT; `writeErrorResponse` now sets `res.Request = req`.
 -/
 import FwdVerif.Lib.Wire
 
@@ -97,14 +99,15 @@ def writeResponse (m : Method) (status : Nat) (werr : Bool) : List Event :=
     is non-nil exactly for the transport's `OnProxyConnectResponse` error -/
 inductive ErrSource
   | local              -- p.errorResponse(req, err): res.Request = req
-  | transportConnect   -- connectError.res: res.Request = the transport's own CONNECT request
+  | transportConnect   -- connectError.res, re-addressed: `res.Request = req` (the client's request)
   deriving DecidableEq, Repr
 
-/-- `writeErrorResponse(req, err)` -/
+/-- `writeErrorResponse(req, err)`: whichever way the response was obtained, it is written — and
+    reported — as the answer to `req` -/
 def writeErrorResponse (req : Method) (src : ErrSource) (status : Nat) (werr : Bool) : List Event :=
   match src with
   | .local => writeResponse req status werr
-  | .transportConnect => writeResponse .connect status werr
+  | .transportConnect => writeResponse req status werr
 
 /-- how `tunnel(name, res, crw)` ends -/
 inductive TunnelEnd
@@ -134,7 +137,8 @@ inductive Path
   | refused (m : Method) (st : Nat) (w : Bool)
   /-- `roundTrip` failed with an ordinary error: refused, reset, timeout, client aborted the upload -/
   | roundTripError (m : Method) (st : Nat) (w : Bool)
-  /-- `roundTrip` failed because the upstream proxy rejected the transport's CONNECT (F12) -/
+  /-- `roundTrip` failed because the upstream proxy rejected the transport's CONNECT: its answer is
+      relayed as the response to the client's request -/
   | transportConnectRejected (m : Method) (st : Nat) (w : Bool)
   /-- `modifyResponse` failed -/
   | responseModifierError (m : Method) (st : Nat) (w : Bool)
@@ -227,10 +231,10 @@ def Path.shutdown : Path → Bool
   | .shutdownAfterRead _ => true
   | _ => false
 
-/-- the recorded defect classes, decided from the path alone:
-    F12 = CONNECT rejected inside the transport; F40 = client CONNECT rejected with 101 -/
+/-- the recorded defect class, decided from the path alone:
+    F40 = a CONNECT (the client's, or the transport's own) rejected with 101 and written without error -/
 def Path.defect : Path → Bool
-  | .transportConnectRejected _ _ _ => true
+  | .transportConnectRejected _ st w => st = 101 && !w
   | .connectRejected st w => st = 101 && !w
   | _ => false
 
